@@ -36,6 +36,9 @@ class C04(EngineProp):
                 if s.get("retry") and draw(st.integers(0, 5)) == 0:
                     s["retry"]["raise_at"] = draw(st.integers(1, 3))
                     s["retry"]["raise_in"] = draw(st.sampled_from(["next", "predicate"]))
+                elif s.get("retry") and draw(st.integers(0, 3)) == 0:
+                    # a user-written policy object of an ordinary Python shape (the RetryPolicy protocol only asks for next())
+                    s["retry"]["user_policy"] = draw(st.sampled_from(["dataclass", "no_seed_kwarg", "slots", "eq_without_hash"]))
             return spec
 
         @st.composite
@@ -63,7 +66,22 @@ class C04(EngineProp):
             ]
             return {"steps": steps, "timeout": None, "ext": ext, "ties": draw(st.lists(st.integers(0, 7), max_size=6))}
 
-        return st.one_of(with_policy_faults(), with_policy_faults(), stop_race())
+        @st.composite
+        def user_policy_failures(draw):
+            """A step that really fails and is retried (or exhausts its budget) under a user-written policy object."""
+            n = draw(st.integers(1, 3))
+            upto = draw(st.integers(1, n + 1))  # > n-1 attempts failing = budget exhausted -> the run fails
+            retry = {"n": n, "w": draw(st.sampled_from([0, 0, 1])), "user_policy": draw(st.sampled_from(["dataclass", "no_seed_kwarg", "slots", "eq_without_hash"]))}
+            steps = [
+                {"name": "a", "accepts": ["GStart"], "workers": 1, "retry": None,
+                 "acts": {"GStart": [["send", "E0", draw(st.integers(1, 3)), None], ["ret", None]]}},
+                {"name": "b", "accepts": ["E0"], "workers": draw(st.integers(1, 2)), "retry": retry,
+                 "acts": {"E0": [["sleep", draw(st.sampled_from([0, 1, 2]))], ["fail", upto, "GenError"], ["stream", "Note"], ["ret", None]]}},
+                {"name": "fin", "accepts": ["Fin"], "workers": 1, "retry": None, "acts": {"Fin": [["ret", "GStop"]]}},
+            ]
+            return {"steps": steps, "timeout": None, "ext": [], "ties": draw(st.lists(st.integers(0, 7), max_size=4))}
+
+        return st.one_of(with_policy_faults(), with_policy_faults(), stop_race(), user_policy_failures())
 
     def retry_builder(self, spec):
         m = genwf.M()
@@ -72,6 +90,46 @@ class C04(EngineProp):
             return None
         inner_kw = dict(wait=rp.wait_fixed(spec.get("w", 0)), stop=rp.stop_after_attempt(spec["n"]))
         k = spec.get("raise_at")
+        shape = spec.get("user_policy")
+        if not k and shape:
+            import dataclasses
+
+            inner0 = rp.retry_policy(**inner_kw)
+            if shape == "dataclass":
+
+                @dataclasses.dataclass  # eq=True, not frozen: instances are unhashable
+                class BudgetPolicy:
+                    budget: int = 3
+
+                    def next(self, elapsed_time, attempts, error, *, seed=None):
+                        return inner0.next(elapsed_time, attempts, error, seed=seed)
+
+                return BudgetPolicy()
+            if shape == "no_seed_kwarg":
+
+                class OldStylePolicy:
+                    def next(self, elapsed_time, attempts, error):
+                        return inner0.next(elapsed_time, attempts, error)
+
+                return OldStylePolicy()
+            if shape == "slots":
+
+                class SlotsPolicy:
+                    __slots__ = ()
+
+                    def next(self, elapsed_time, attempts, error, *, seed=None):
+                        return inner0.next(elapsed_time, attempts, error, seed=seed)
+
+                return SlotsPolicy()
+
+            class EqPolicy:
+                def __eq__(self, other):
+                    return isinstance(other, EqPolicy)
+
+                def next(self, elapsed_time, attempts, error, *, seed=None):
+                    return inner0.next(elapsed_time, attempts, error, seed=seed)
+
+            return EqPolicy()
         if not k:
             return rp.retry_policy(**inner_kw)
         calls = {"n": 0}
@@ -105,6 +163,8 @@ class C04(EngineProp):
         policy_fault = any((s.get("retry") or {}).get("raise_at") for s in spec["steps"])
         if policy_fault:
             r.classes.append("policy_fault_armed")
+        if any((s.get("retry") or {}).get("user_policy") for s in spec["steps"]):
+            r.classes.append("user_policy_object")
         if kind == "unfinished":
             # Fin / timeout always ends these programs: not finishing at the horizon is out of C04's scope unless
             # the engine died silently; report separately so it is not lost
